@@ -300,7 +300,7 @@ func bt3FlushLoopComplete(p *core.Prog, rep *core.Report) {
 			for blk := range lp.body {
 				for _, in := range blk.Instrs {
 					if ci, ok := in.(ssa.CallInstruction); ok {
-						if c := ci.Common().StaticCallee(); c != nil && core.RecvNamed(c) == R.ShardedIndex && (c.Name() == "Put" || c.Name() == "Delete") {
+						if c := ci.Common().StaticCallee(); callUpdatesIndex(p, c, 0) {
 							upd = true
 						}
 					}
@@ -754,4 +754,28 @@ func pool4NoUseAfterRelease(p *core.Prog, rep *core.Report) {
 		return
 	}
 	rep.Check(len(bad) == 0, "POOL4", "no-use-after-release", fmt.Sprintf("none of the %d non-deferred releases is followed by a use of the released object", n), "", strings.Join(sortedStr(bad), "; "), true)
+}
+
+// callUpdatesIndex: c is ShardedIndex.Put / Delete, or an unexported function of the root package that calls one
+// (the body of an index-update loop is often extracted into a helper; two levels).
+func callUpdatesIndex(p *core.Prog, c *ssa.Function, d int) bool {
+	if c == nil {
+		return false
+	}
+	if core.RecvNamed(c) == p.R.ShardedIndex && (c.Name() == "Put" || c.Name() == "Delete") {
+		return true
+	}
+	if d >= 2 || !inRootPkg(c) || token.IsExported(c.Name()) {
+		return false
+	}
+	for _, b := range c.Blocks {
+		for _, in := range b.Instrs {
+			if ci, ok := in.(ssa.CallInstruction); ok {
+				if cc := ci.Common().StaticCallee(); cc != c && callUpdatesIndex(p, cc, d+1) {
+					return true
+				}
+			}
+		}
+	}
+	return false
 }
